@@ -87,6 +87,10 @@ impl NodeX for Rat {
     fn at(g: &Grid, i: usize) -> Rat { g.r(i) }
 }
 
+/// node count: usually 2..12; one draw in eight is long (13..`long_max`), so that a search or blocked loop that is only
+/// taken on larger meshes is driven too ("every access path" does not stop at 12 nodes)
+fn node_count(rng: &mut Rng, long_max: usize) -> usize { if rng.chance(0.125) { rng.usize(13, long_max) } else { rng.usize(2, 12) } }
+
 /// non-uniform (for n>=3) dyadic grid with n nodes
 fn gen_grid(rng: &mut Rng, n: usize) -> Grid {
     let s = rng.below(10) as u32; // 2^-s >= 2^-9 = 0.00195 >= 1e-3
@@ -976,14 +980,15 @@ pub fn run(ctx: &Ctx) -> Report {
             let nv = rng.usize(1, 4);
             match rng.below(10) {
                 0 | 1 => {
-                    let n = rng.usize(2, 12);
+                    let n = node_count(rng, 48);
                     let g = gen_grid(rng, n);
                     let nops = rng.usize(0, 10); let ops = random_ops1(rng, n, nv, nops);
                     if rng.bool() { history1::<Rat, f64>(st, rng, "random", &g, nv, &ops, &mut |_, _, _, _| {}); }
                     else { history1::<Rat, Rat>(st, rng, "random", &g, nv, &ops, &mut |_, _, _, _| {}); }
                 }
                 2..=4 => {
-                    let n = rng.usize(2, 12);
+                    let n = node_count(rng, 48);
+                    if n > 12 { st.count("cases:mesh1d:long(13..48 nodes)"); }
                     let g = gen_grid(rng, n);
                     let nops = rng.usize(0, 10); let ops = random_ops1(rng, n, nv, nops);
                     let p = if rng.chance(0.3) { rng.usize(0, 3) } else { rng.usize(0, 17) };
@@ -1000,7 +1005,8 @@ pub fn run(ctx: &Ctx) -> Report {
                     history2::<Rat>(st, rng, "random", &gx, &gy, nv, &ops, &mut |_, _, _, _| {});
                 }
                 _ => {
-                    let (nx, ny) = (rng.usize(2, 12), rng.usize(2, 12));
+                    let (nx, ny) = (node_count(rng, 24), node_count(rng, 24));
+                    if nx > 12 || ny > 12 { st.count("cases:mesh2d:long(13..24 nodes)"); }
                     let (gx, gy) = (gen_grid(rng, nx), gen_grid(rng, ny));
                     let nops = rng.usize(0, 8); let ops = random_ops2(rng, nx, ny, nv, nops);
                     history2::<f64>(st, rng, "random", &gx, &gy, nv, &ops, &mut |st, r, m, s| {
